@@ -17,10 +17,14 @@
 #include <functional>
 #include <unordered_map>
 #include <chrono>
+#include <cstring>
+#include <cerrno>
+#include <unistd.h>
+#include <sys/wait.h>
 
 namespace vomp {
 
-struct Execution { std::vector<Point> points; std::string outcome; std::string races;   /* lockset detector reports of this execution, one per line (lset builds only) */ bool deadlock = false, diverged = false, overflow = false, horizon = false; std::vector<int> choices() const { std::vector<int> c; for (auto& p : points) c.push_back(p.choice); return c; } };
+struct Execution { std::vector<Point> points; std::string outcome; std::string races;   /* lockset detector reports of this execution, one per line (lset builds only) */ bool deadlock = false, diverged = false, overflow = false, horizon = false; int crashed = 0;   /* isolated executions: signal (or 1000 + exit status) that ended the child before it reported */ std::vector<int> choices() const { std::vector<int> c; for (auto& p : points) c.push_back(p.choice); return c; } };
 
 struct Explorer {
     int team = 2, bound = 2; long max_executions = 2000000; double deadline_s = 1e9;
@@ -30,7 +34,29 @@ struct Explorer {
     std::unordered_map<unsigned long, int> expanded;              // (state key, alternative) -> largest remaining budget it was expanded with
     std::chrono::steady_clock::time_point t0 = std::chrono::steady_clock::now();
 
+    // Isolated executions: every execution runs in a forked child (the team threads only live inside a parallel region, so the process is single-threaded when it forks), and reports its
+    // trace through a pipe.  Process-wide state the scenario cannot reset (function-local statics, lazily built caches) is then as fresh in every execution as in a new process, so a result
+    // that depends on which thread initialises it first shows up as a schedule-dependent outcome; a crash (std::terminate from a noexcept function, a sanitizer abort) ends one execution, not the search.
+    bool isolate = false; long crashes = 0;
     Execution run(const std::vector<int>& prefix) {
+        if (!isolate) return run_here(prefix);
+        int fd[2]; if (pipe(fd) != 0) { Execution x; x.outcome = "INTERNAL pipe failed"; x.diverged = true; return x; }
+        fflush(nullptr); pid_t pid = fork();
+        if (pid == 0) { close(fd[0]); Execution x = run_here(prefix); std::string buf; auto put = [&](const void* p, size_t n) { buf.append((const char*)p, n); }; unsigned long n = x.points.size(); put(&n, sizeof n); if (n) put(x.points.data(), n * sizeof(Point));
+            for (const std::string* str : {&x.outcome, &x.races}) { unsigned long l = str->size(); put(&l, sizeof l); put(str->data(), l); } char fl[4] = {(char)x.deadlock, (char)x.diverged, (char)x.overflow, (char)x.horizon}; put(fl, 4); unsigned long magic = 0x76657269664f4b21ul; put(&magic, sizeof magic);
+            for (size_t off = 0; off < buf.size();) { ssize_t w = write(fd[1], buf.data() + off, buf.size() - off); if (w <= 0) _exit(3); off += (size_t)w; } close(fd[1]); _exit(0); }
+        close(fd[1]); std::string buf; char tmp[65536]; for (;;) { ssize_t r = read(fd[0], tmp, sizeof tmp); if (r > 0) buf.append(tmp, (size_t)r); else if (r == 0) break; else if (errno != EINTR) break; } close(fd[0]);
+        int status = 0; while (waitpid(pid, &status, 0) < 0 && errno == EINTR) {}
+        Execution x; size_t off = 0; auto get = [&](void* p, size_t n) { if (off + n > buf.size()) return false; memcpy(p, buf.data() + off, n); off += n; return true; };
+        bool ok = false; unsigned long n = 0;
+        if (get(&n, sizeof n) && n <= (unsigned long)Trace::MAXP) { x.points.resize(n); if (!n || get(x.points.data(), n * sizeof(Point))) { bool good = true; for (std::string* str : {&x.outcome, &x.races}) { unsigned long l = 0; if (!get(&l, sizeof l) || off + l > buf.size()) { good = false; break; } str->assign(buf.data() + off, l); off += l; }
+                char fl[4]; unsigned long magic = 0; if (good && get(fl, 4) && get(&magic, sizeof magic) && magic == 0x76657269664f4b21ul) { x.deadlock = fl[0]; x.diverged = fl[1]; x.overflow = fl[2]; x.horizon = fl[3]; ok = true; } } }
+        if (!ok || !WIFEXITED(status) || WEXITSTATUS(status) != 0) { x = Execution(); x.crashed = WIFSIGNALED(status) ? WTERMSIG(status) : 1000 + (WIFEXITED(status) ? WEXITSTATUS(status) : 255); x.outcome = "CRASHED: the process running this schedule ended with " + (WIFSIGNALED(status) ? "signal " + std::to_string(WTERMSIG(status)) : "exit status " + std::to_string(WIFEXITED(status) ? WEXITSTATUS(status) : 255)) + " before it reported";
+            for (int c : prefix) { Point p{}; p.choice = c; p.n_enabled = 0; x.points.push_back(p); } crashes++; }
+        executions++; points += (long)x.points.size(); for (auto& p : x.points) if (p.choice != 0) { with_switch++; break; } max_points = std::max<long>(max_points, (long)x.points.size()); outcomes.insert(x.outcome);
+        return x;
+    }
+    Execution run_here(const std::vector<int>& prefix) {
         set_mode(MODE_EXPLORE, team); set_prefix(prefix.data(), (int)prefix.size()); begin_execution();
         Execution x; x.outcome = scenario();
         if (lset_drain) { static char buf[16384]; buf[0] = 0; if (lset_drain(buf, sizeof buf) > 0) x.races = buf; }
